@@ -753,6 +753,31 @@ def _other_sites():
                     lambda: b.create_multi_tag(nm + "-ok", "t", positions=[[1.0], [2.0]], extents=[[0.5], [0.5]]))
         S["Block.create_multi_tag/derived-%s-name-taken" % role] = _derived
 
+    for fault, badcall in (("interval-not-a-number", lambda h: h.append_sampled_dimension("x")),
+                           ("non-string-labels", lambda h: h.append_set_dimension([1, 2])),
+                           ("unordered-ticks", lambda h: h.append_range_dimension([2.0, 1.0]))):
+        def _after_delete(it, n, fault=fault, badcall=badcall):
+            # the descriptors were just removed through a handle that stays in use: the refused append and the
+            # valid appends after it all go through that one handle, which must end up with exactly the two
+            # descriptors appended last, in order
+            a = need(it.pick("array", n, lambda x: x.info.get("dims")))
+            h = it.handle(a)
+            len(h.dimensions)
+            h.delete_dimensions()
+            a.info["dims"] = []
+
+            def retry():
+                h.append_set_dimension(["a", "b"])
+                h.append_sampled_dimension(0.5)
+                kinds = [type(d).__name__ for d in h.dimensions]
+                fresh = [type(d).__name__ for d in it.handle(a).dimensions]
+                if kinds != ["SetDimension", "SampledDimension"] or fresh != kinds:
+                    raise AssertionError("descriptors after two valid appends: kept handle %s, fresh handle %s"
+                                         % (kinds, fresh))
+                a.info["dims"] = [{"kind": "set", "link": None}, {"kind": "sampled", "link": None}]
+            return (lambda: badcall(h), retry)
+        S["DataArray.append_dimension-after-delete_dimensions/" + fault] = _after_delete
+
     @reg("section.link/not-a-section")
     def _(it, n):
         sec = need(it.pick("section", n, lambda x: x.single.get("link") is not None) or it.pick("section", n))
